@@ -111,9 +111,11 @@ def to_numpy_bins_with_mask(bins: ArrayLike) -> Tuple[np.ndarray, np.ndarray]:
             edges_.append(bins[-1, 1])
     else:
         raise ValueError("to_numpy_bins_with_mask: array with dim=1 or 2 expected")
-    if not np.all(np.diff(edges_) > 0):
+    edges_ = np.asarray(edges_)
+    # Compare neighbours (a difference would wrap around for narrow integer edges)
+    if not np.all(edges_[1:] > edges_[:-1]):
         raise ValueError("to_numpy_bins_with_mask: edges array not monotone.")
-    return np.asarray(edges_), np.asarray(mask_, dtype=int)
+    return edges_, np.asarray(mask_, dtype=int)
 
 
 def is_rising(bins: ArrayLike) -> bool:
